@@ -1,10 +1,20 @@
-"""C20 child: ONE fresh interpreter per configuration.
+"""C20 child: ONE fresh interpreter per configuration / per history.
 
 Started by harness/impl_c20.py with a scrubbed environment and cwd = the scratch cwd of the
-case. Imports pypyr from $C20_REPO, runs `config.init()` on the module-level singleton (what
-`pypyr.cli.main` does) and prints one JSON line: the error (if any), every writable property
-*after* the call (also after a failed call: in-place mutation is observable), `skip_init`,
-`config_loaded_paths`, and the `handle_path` calls in the order they were made.
+case. Imports pypyr from $C20_REPO - the module-level singleton `pypyr.config.config` (object 0) is
+built right there, under the environment the process started with - and then plays the script of
+$C20_SCRIPT (a JSON file; absent = `[{"op": "init", "obj": 0}]`, what `pypyr.cli.main` does):
+
+  {"op": "env", "env": {NAME: value}}   the variables of interest become exactly this mapping
+                                        (set / changed / removed in os.environ)
+  {"op": "new", "obj": k}               objs[k] = pypyr.config.Config()
+  {"op": "init", "obj": k}              objs[k].init()
+
+and prints one JSON line: for the import and for every new / init step the error (if any), every
+writable property of that object *after* the step (also after a failed call: in-place mutation is
+observable), `skip_init`, `config_loaded_paths`, the `handle_path` calls made during the step in
+order, every file below the scratch root that was opened during the step (audit hook), and the
+variables of interest as os.environ had them at that moment.
 
 Never imported by the harness process; never edits anything.
 """
@@ -13,6 +23,9 @@ import json
 import os
 import re
 import sys
+
+NAMES = ['PYPYR_SKIP_INIT', 'PYPYR_CONFIG_GLOBAL', 'PYPYR_CONFIG_LOCAL', 'PYPYR_NO_CACHE', 'PYPYR_ENCODING',
+         'PYPYR_CMD_ENCODING', 'XDG_CONFIG_HOME', 'XDG_CONFIG_DIRS']
 
 
 def enc(v):
@@ -53,6 +66,22 @@ def classify(e):
 
 def main():
     repo = os.environ['C20_REPO']
+    root = os.path.realpath(os.environ.get('C20_ROOT') or os.path.dirname(os.getcwd()))
+    script = [{'op': 'init', 'obj': 0}]
+    if os.environ.get('C20_SCRIPT'):
+        with open(os.environ['C20_SCRIPT']) as f:
+            script = json.load(f)
+    opened = []
+
+    def hook(event, args):
+        if event == 'open' and args and isinstance(args[0], (str, bytes, os.PathLike)):
+            try:
+                p = os.fsdecode(args[0])
+                if os.path.realpath(p).startswith(root + os.sep):
+                    opened.append(p)
+            except Exception:       # noqa: an audit hook must never raise
+                pass
+    sys.addaudithook(hook)
     sys.path.insert(0, repo)
     import pypyr.config as pc
     import pypyr.errors
@@ -68,19 +97,49 @@ def main():
         pc.Config.handle_path = recorder
     except AttributeError:      # a refactor renamed it: the call order is then not observed
         calls = None
-    cfg = pc.config
-    err = None
-    try:
-        cfg.init()
-    except Exception as e:       # noqa: the error type is the observation
-        err = {'type': type(e).__name__, 'config_error': isinstance(e, pypyr.errors.ConfigError),
-               'msg': str(e)[:400]}
-        err.update(classify(e))
-    out['err'] = err
-    out['props'] = {k: enc(getattr(cfg, k, {'missing': True})) for k in sorted(pc.Config.all_writable_props)}
-    out['skip_init'] = bool(getattr(cfg, 'skip_init', None))
-    out['loaded'] = [str(p) for p in (cfg.config_loaded_paths or [])]
-    out['calls'] = calls
+    objs = {0: pc.config}
+
+    def snapshot(op, k, err):
+        cfg = objs.get(k)
+        if cfg is None:         # the construction itself raised
+            return {'op': op, 'obj': k, 'err': err, 'props': {}, 'skip_init': False, 'loaded': [],
+                    'calls': None if calls is None else list(calls), 'opened': list(opened),
+                    'env_seen': {n: os.environ[n] for n in NAMES if n in os.environ}}
+        return {'op': op, 'obj': k, 'err': err,
+                'props': {p: enc(getattr(cfg, p, {'missing': True})) for p in sorted(pc.Config.all_writable_props)},
+                'skip_init': bool(getattr(cfg, 'skip_init', None)),
+                'loaded': [str(p) for p in (cfg.config_loaded_paths or [])],
+                'calls': None if calls is None else list(calls),
+                'opened': list(opened),
+                'env_seen': {n: os.environ[n] for n in NAMES if n in os.environ}}
+
+    steps = [snapshot('new', 0, None)]
+    for st in script:
+        del opened[:]
+        if calls is not None:
+            del calls[:]
+        if st['op'] == 'env':
+            for n in NAMES:
+                if n in st['env']:
+                    os.environ[n] = st['env'][n]
+                else:
+                    os.environ.pop(n, None)
+            continue
+        k = st['obj']
+        err = None
+        try:
+            if st['op'] == 'new':
+                objs[k] = pc.Config()
+            elif st['op'] == 'init':
+                objs[k].init()
+            else:
+                raise SystemExit(f'unknown script op {st!r}')
+        except Exception as e:       # noqa: the error type is the observation
+            err = {'type': type(e).__name__, 'config_error': isinstance(e, pypyr.errors.ConfigError),
+                   'msg': str(e)[:400]}
+            err.update(classify(e))
+        steps.append(snapshot(st['op'], k, err))
+    out['steps'] = steps
     sys.stdout.write(json.dumps(out, ensure_ascii=True) + '\n')
 
 
